@@ -163,9 +163,9 @@ func cmdFrame(fs *flag.FlagSet) {
 			tw := newTraceWriter(fmt.Sprintf("%s.%03d.ndjson", *out, wi))
 			defer tw.Close()
 			env := newEnv(w, "p1")
-			tw.Emit(Event{"ev": "Init", "p": "p1", "world": wn, "files": sortedKeys(w.Docs)})
-			for _, f := range sortedKeys(w.Docs) {
-				tw.Emit(Event{"ev": "Load", "p": "p1", "f": f, "lines": Lines([]byte(w.Docs[f])), "parsed": true, "len": len(w.Docs[f]), "note": "init"})
+			emitInit(tw, w)
+			for _, pk := range sortedPeerKeys(w) {
+				env.Recollect(wt, pk)
 			}
 			tOut, oOut := env.Recollect(wt, "p1")
 			tw.Emit(Event{"ev": "Collect", "p": "p1", "t": tOut.Status, "o": oOut.Status, "panics": []Event{}, "fp": env.Fingerprint()})
@@ -319,10 +319,7 @@ func cmdShift(fs *flag.FlagSet) {
 				if ji >= shards {
 					tw.Emit(Event{"ev": "Reset"})
 				}
-				tw.Emit(Event{"ev": "Init", "p": "p1", "world": j.w.Name, "files": sortedKeys(j.w.Docs)})
-				for _, f := range sortedKeys(j.w.Docs) {
-					tw.Emit(Event{"ev": "Load", "p": "p1", "f": f, "lines": Lines([]byte(j.w.Docs[f])), "parsed": true, "len": len(j.w.Docs[f]), "note": "init"})
-				}
+				emitInit(tw, j.w)
 				tw.Emit(Event{"ev": "InsertLines", "p": "p1", "f": j.file, "at": j.at, "ins": Lines([]byte(j.ins))[:dl], "dl": dl, "db": db,
 					"lines": Lines(nsrc), "len": len(nsrc), "note": fmt.Sprintf("at:%d ins:%q", j.at, j.ins)})
 				keys := queryKeys(j.w, "p1", *stride, lrng)
